@@ -3504,3 +3504,84 @@ def falsy_zero_hazards(tree: Tree, prefix: str = "ampform") -> tuple[list[tuple[
             if src is not None:
                 out.append((fn, t, src))
     return out, reads
+
+
+# --------------------------------------------------------------------------- R-MEMOKEY
+def memo_key_hazards(tree: Tree, prefix: str) -> tuple[list[tuple[FuncInfo, ast.AST, str, list[str]]], int]:
+    """Per-instance memos ``if K not in self.M: self.M[K] = V`` whose key leaves out configuration that V depends on.
+
+    (hazards, number of memos judged).  A hazard: V (followed through ``self.<method>(...)`` calls, three levels) reads a
+    PUBLIC instance attribute that ``__init__`` binds (so a user can re-assign it: ``builder.phsp_factor = ...``) and
+    that is not an element of the key - after a re-assignment the memo hands out what was computed for the old value.
+    Three-valued by construction: only the explicit ``not in`` / store pair with a key that is a tuple display (or a local
+    bound once to one) is read; any other memo shape is not judged here."""
+    out: list[tuple[FuncInfo, ast.AST, str, list[str]]] = []
+    judged = 0
+    for q, cls in sorted(tree.classes.items()):
+        if not q.startswith(prefix):
+            continue
+        init = tree.lookup_method(cls, "__init__")
+        public: set[str] = set()
+        if init is not None:
+            for n in walk_function(init.node, nested=False):
+                tgts = n.targets if isinstance(n, ast.Assign) else [n.target] if isinstance(n, ast.AnnAssign) and n.value is not None else []
+                for t in tgts:
+                    if isinstance(t, ast.Attribute) and isinstance(t.value, ast.Name) and t.value.id == "self" and not t.attr.startswith("_"):
+                        public.add(t.attr)
+        for st in cls.node.body:  # annotated fields of attrs / dataclass classes and property setters
+            if isinstance(st, ast.AnnAssign) and isinstance(st.target, ast.Name) and not st.target.id.startswith("_") and any(c.decorators for c in [cls]):
+                public.add(st.target.id)
+            if isinstance(st, ast.FunctionDef) and any(isinstance(d, ast.Attribute) and d.attr == "setter" for d in st.decorator_list):
+                public.add(st.name)
+        if not public:
+            continue
+
+        def reads(node: ast.AST, fn: FuncInfo, depth: int, seen: set) -> set[str]:
+            got: set[str] = set()
+            for n in ast.walk(node):
+                if isinstance(n, ast.Attribute) and isinstance(n.value, ast.Name) and n.value.id == "self" and isinstance(n.ctx, ast.Load):
+                    method = tree.lookup_method(cls, n.attr) or tree.lookup_method(cls, f"_{cls.name.lstrip('_')}{n.attr}")
+                    if method is None:
+                        got.add(n.attr)
+                    elif any(isinstance(d, ast.Name) and d.id in {"property", "cached_property"} or isinstance(d, ast.Attribute) and d.attr in {"cached_property"} for d in method.node.decorator_list):
+                        got.add(n.attr)  # the property itself (it has a setter or not) ...
+                        if depth < 3 and method.qual not in seen:
+                            got |= reads(method.node, method, depth + 1, seen | {method.qual})  # ... and what it reads
+                    elif depth < 3 and method.qual not in seen and isinstance(getattr(n, "_parent", None), ast.Call) and n._parent.func is n:
+                        got |= reads(method.node, method, depth + 1, seen | {method.qual})
+            return got
+
+        for m in cls.methods.values():
+            rd = None
+            for test in [n for n in walk_function(m.node, nested=False) if isinstance(n, ast.If)]:
+                t = test.test
+                if isinstance(t, ast.UnaryOp) and isinstance(t.op, ast.Not) and isinstance(t.operand, ast.Compare) and len(t.operand.ops) == 1 and isinstance(t.operand.ops[0], ast.In):
+                    t = ast.Compare(left=t.operand.left, ops=[ast.NotIn()], comparators=t.operand.comparators)
+                if not (isinstance(t, ast.Compare) and len(t.ops) == 1 and isinstance(t.ops[0], ast.NotIn)):
+                    continue
+                key_node, memo = t.left, t.comparators[0]
+                if not (isinstance(memo, ast.Attribute) and isinstance(memo.value, ast.Name) and memo.value.id == "self"):
+                    continue
+                stores = [s_ for s_ in test.body if isinstance(s_, ast.Assign) and len(s_.targets) == 1 and isinstance(s_.targets[0], ast.Subscript)
+                          and unparse(s_.targets[0].value) == unparse(memo) and unparse(s_.targets[0].slice) == unparse(key_node)]
+                if not stores:
+                    continue
+                key_value = key_node
+                if isinstance(key_node, ast.Name):
+                    rd = rd or RD(m.node)
+                    defs = rd.reaching(key_node)
+                    if len(defs) != 1:
+                        continue
+                    d = next(iter(defs))
+                    if d.kind != "assign" or d.value is None or d.index is not None:
+                        continue
+                    key_value = d.value
+                if not isinstance(key_value, ast.Tuple):
+                    continue
+                judged += 1
+                in_key = {e.attr for e in ast.walk(key_value) if isinstance(e, ast.Attribute) and isinstance(e.value, ast.Name) and e.value.id == "self"}
+                used = reads(stores[0].value, m, 0, {m.qual}) - {memo.attr}
+                missing = sorted((used & public) - in_key)
+                if missing:
+                    out.append((m, stores[0], unparse(memo), missing))
+    return out, judged
